@@ -221,7 +221,9 @@ def run(tier: str, seed: int) -> dict:
     evaluations = 0
     nontrivial = 0
     n_classes = 0
-    for out in c01.map_cases(worker, [(repr(s), tier) for s in starts]):
+    for out in c01.map_cases(
+        worker, [(repr(s), tier) for s in starts], chunksize=1
+    ):
         fired.update(out["fired"])
         n_classes += out["classes"]
         for key, kind, st, cons, requests, violation in out["results"]:
